@@ -8,6 +8,12 @@ from common import Driver, DriverFailure
 import vloop
 
 LEVEL = "proof"
+MANIFEST = dict(
+    text='Machine-checked Lean 4 proof, for every call sequence of any length and interleaving, that both counter implementations (translated statement-by-statement from the source on every run) hand out 1+k%191 / 192+k%64 (closed form), stay in range, are successors in their own cycle, and that every call site picks the right counter (decide over the regenerated call-site table). Tie: translator + full differential sweep of every reachable counter state against both real objects; wire clause checked on datagrams built by the real clients.',
+    note='Trusted: Lean kernel; axioms propext/Classical.choice/Quot.sound only; harness/translate.py+py2lean.py (cross-checked by the sweep); atomicity of threading.Lock (with-lock is checked syntactically; real-thread hammer in thorough tier is a test, not a proof).',
+    technique='Lean 4 induction over call sequences on source-translated definitions + decide over generated call-site table',
+    design='5/C16',
+)
 
 
 def _impl_objects():
